@@ -105,7 +105,7 @@ namespace detail
 				return Tmp + (Multiple - (Tmp % Multiple));
 			}
 			else
-				return Source + (-Source % Multiple);
+				return Source - (Source % Multiple); // truncated remainder: <= 0 here (was -Source % Multiple, which overflows for the most negative value)
 		}
 	};
 
